@@ -704,6 +704,10 @@ func (g *GcsEmu) finishUpload(ctx context.Context, baseUrl HttpBaseUrl, obj *sto
 		if err != nil {
 			return fmt.Errorf("failed to get meta for %s/%s: %w", bucket, filename, err)
 		}
+		if meta == nil {
+			// only the bucket's deletion is not serialised with this object's lock
+			return fmtErrorfCode(http.StatusNotFound, "%s/%s: the bucket was deleted during the upload", bucket, filename)
+		}
 		return nil
 	})
 	verifYield("gcs.unlocked")
